@@ -25,19 +25,30 @@ Structure
   length); events a script schedules while paused after delivery j are
   scheduled by the reference from its hook after delivery j.
 
-Oracle clauses (each tied to the statement):
- * run-divergence: the harness delivery log / final component state / summary
-   counters of the scripted run equal the uninterrupted run's;
- * step-count: step(n) advances events_processed by exactly n unless the run
-   completes first (a shorter step is excused only when a breakpoint is
-   satisfied at the stopping delivery or a hook requested a pause inside it);
- * breakpoint-late: the run never passes the first delivery satisfying an
-   armed breakpoint without being paused right after it;
- * get_state: snapshots at each pause agree with the reference at the same
-   events_processed (time, last event, heap size, primary count, log prefix);
- * reset: reset() then run() reproduces the delivery log for stateless models.
-Silent on: where pause() takes effect, spurious extra pauses under resume(),
-one-shot removal, trace-recorder span contents, events_cancelled after reset().
+Oracle clauses (each tied to a phrase of the statement):
+ * mode-divergence ("attaching ... does not change which events are delivered, their order, their
+   times or the resulting component state"): harness log, final component state and summary
+   counters of every observed uninterrupted run equal the unobserved run's (fast loop vs
+   instrumented loop included);
+ * run-divergence ("a run driven by any sequence of pause/step/resume calls ends in the same state
+   as an uninterrupted run"): after every returning call the harness log is a prefix of the
+   uninterrupted run's; at the end log, component state and summary counters are equal; the
+   observers' own logs (event hook, time hook, recorder dequeue spans) equal those of the
+   uninterrupted run in the same mode; shape `paused-schedule` when the script scheduled events
+   while paused (reference = same events scheduled from a hook at the same point);
+ * step-count ("step(n) delivers exactly n events unless the run ends first"): a shorter step is
+   excused only when a breakpoint is satisfied at the stopping delivery or a hook requested a pause
+   inside it;
+ * breakpoint-late ("a breakpoint pauses right after the first delivery that satisfies it"): the
+   run never passes the first delivery satisfying an armed breakpoint without being paused there;
+ * get_state (anchor "SimulationState snapshots ... after each step"): snapshots at each pause agree
+   with the reference at the same events_processed (time, last event, log prefix; heap size and
+   primary count only for models in which nothing leaves the heap undelivered);
+ * reset ("reset() followed by run() repeats the original delivery sequence for models whose
+   entities are stateless"): Z anywhere in a script on stateless programs.
+Silent on: where pause() takes effect, spurious extra pauses under resume(), one-shot removal as
+such, trace-recorder span contents, events_cancelled after reset(), reset() on stateful models,
+events scheduled while paused and then reset().
 """
 from __future__ import annotations
 
